@@ -791,7 +791,8 @@ pub fn corpus(repo: &Path) -> Corpus {
 pub fn other_ext_inputs() -> Vec<Vec<u8>> {
     let mut out = vec![];
     for base in ["en", "en-US", "de-Latn-AT-1996", "und"] {
-        for o in ["a-foo", "b-cc", "w-one-two", "0-abc", "9-zz", "a-foo-b-bar", "s-abcdefgh", "v-aa-bb-cc", "y-true"] {
+        // the last four repeat a singleton (ill-formed whether or not other extensions are supported)
+        for o in ["a-foo", "b-cc", "w-one-two", "0-abc", "9-zz", "a-foo-b-bar", "s-abcdefgh", "v-aa-bb-cc", "y-true", "a-foo-a-bar", "7-one-7-two", "a-foo-b-bar-A-baz", "w-aa-u-ca-w-bb"] {
             for shape in [
                 "{b}-{o}", "{b}-{o}-x-priv", "{b}-{o}-x-aa", "{b}-{o}-x-zz-yy", "{b}-{o}-u-ca-buddhist", "{b}-u-ca-buddhist-{o}", "{b}-u-attr-{o}-x-a", "{b}-t-en-{o}-x-aa",
                 "{b}-{o}-t-h0-hybrid-u-nu-latn-x-a-b", "{b}-t-h0-hybrid-{o}-u-nu-latn", "{b}-u-nu-latn-t-en-us-{o}", "{b}-{o}-t-en", "{b}-x-aa-{o}",
